@@ -56,6 +56,11 @@ def plan(tier, seed):
     for bits in (2, 4):
         for shp in shapes:
             tasks.append({"kind": "kernels", "bits": bits, "shape": list(shp)})
+    # size ladder: payloads around 2^16 .. 2^22 elements with non power-of-two dimensions (tiling / blocking / caching code paths)
+    big = [(65537, 3), (4099, 521), (131075, 8)] if tier == "quick" else [(65537, 3), (4099, 521), (131075, 8), (16385, 129), (4096, 2817), (1048579, 2), (3, 1048583)]
+    for bits in (2, 4):
+        for shp in big:
+            tasks.append({"kind": "large", "bits": bits, "shape": list(shp)})
     for bits in (2, 4):
         tasks.append({"kind": "ops", "bits": bits, "maxL": 9 if tier == "quick" else 19})
         tasks.append({"kind": "programs", "bits": bits, "depth": 3 if tier == "quick" else 4})
@@ -243,6 +248,38 @@ def _kernel_case(case):
                                   {"got_shape": tuple(o.shape), "got_dtype": o.dtype})
                     )
     return evals, vs, routes_hit
+
+
+def _large_case(case):
+    """Round trip and kernel equivalence far beyond the exhaustive bound (values are a position-dependent pattern)."""
+    from optimum.quanto.library.ops import disable_extensions
+    from optimum.quanto.tensor.qbits.packed import PackedTensor
+
+    bits, shape = case["bits"], tuple(case["shape"])
+    fields = {"kind": "large", "bits": bits}
+    vs = []
+    n = shape[0] * shape[1]
+    i = torch.arange(n, dtype=torch.int64)
+    t = ((i * 2654435761 + (i >> 7)) % (1 << bits)).to(torch.uint8).reshape(shape)
+    held = []
+    for rep in range(2):  # two tensors of the same shape, results held and compared afterwards (shared-buffer reuse)
+        tt = (t + rep) % (1 << bits)
+        p = PackedTensor.pack(tt.clone(), bits)
+        held.append((tt, p, p.unpack()))
+    for tt, p, u in held:
+        if tuple(p._data.shape) != (-(-shape[0] * bits // 8), shape[1]):
+            vs.append(violation(PID, case, fields, f"large: payload shape {tuple(p._data.shape)} for source {shape}"))
+        if u.shape != tt.shape or not torch.equal(u, tt) or not torch.equal(p.unpack(), tt):
+            vs.append(violation(PID, case, fields, f"large: unpack(pack(t)) != t for shape {shape} bits {bits}"))
+            break
+        ref = _ref_unpack(p._data, bits)
+        outs = {"quanto": torch.ops.quanto.unpack(p._data, bits), "quanto_py": torch.ops.quanto_py.unpack(p._data, bits), "quanto_ext": torch.ops.quanto_ext.unpack(p._data, bits)}
+        with disable_extensions():
+            outs["quanto_disabled"] = torch.ops.quanto.unpack(p._data, bits)
+        for r, o in outs.items():
+            if o.shape != ref.shape or not torch.equal(o, ref):
+                vs.append(violation(PID, case, dict(fields, route=r), f"large: route {r} differs from the reference unpack for payload {tuple(p._data.shape)} bits {bits}"))
+    return 8, vs
 
 
 def _ops_case(case):
@@ -446,6 +483,14 @@ def run_task(task):
         for r, n in routes.items():
             out["counters"]["route_" + r] = n
         out["samples"].append(dict(task, k=137, layout="transposed"))
+    elif kind == "large":
+        ev, vs = _large_case(task)
+        out["evals"] = ev
+        out["nontrivial"] = ev
+        out["points"] = 2
+        out["calls"] = ev
+        out["violations"] = vs[:6]
+        out["counters"]["large_cases"] = 1
     elif kind == "ops":
         ev, vs = _ops_case(task)
         out["evals"] = ev
@@ -474,6 +519,8 @@ def replay_task(case):
         return _roundtrip_case(case)[1]
     if kind == "kernels":
         return [v for v in _kernel_case(case)[1] if v["case"].get("k") == case.get("k") and v["case"].get("layout") == case.get("layout")]
+    if kind == "large":
+        return _large_case(case)[1]
     if kind == "ops":
         return _ops_case(case)[1]
     if kind == "programs":
@@ -500,6 +547,7 @@ def coverage(agg, tier, tasks):
         "transitions": agg.calls,
         "traces_validated_against_impl": agg.calls,
         "exhaustive": True,
+        "size_ladder": [t["shape"] for t in tasks if t["kind"] == "large" and t["bits"] == 2],
         "bounds": {"max_leading_dim": max(t.get("L", 0) for t in tasks), "trailing_shapes": TRAILS, "layouts": LAYOUTS,
                    "byte_values": 256, "routes": 4},
         "counters": dict(sorted(c.items())),
